@@ -563,7 +563,7 @@ class MonitoredFocusList(MonitoredList[_T], typing.Generic[_T]):
         MonitoredFocusList([-3, -2, -1, 0, 1, 2, 3], focus=5)
         """
         if not self:
-            return super().sort(**kwargs)
+            return None
         value = self[self._focus]
         rval = super().sort(**kwargs)
         # the focus follows the object itself, not the first item that compares equal to it
